@@ -1,28 +1,47 @@
 // Command overlaygen rewrites source files of the code under test for the scheduled worlds (build overlay):
 //
-//   - `import "sync"` becomes the scheduler-aware verifsim/simsync, `import "time"` becomes verifsim/simtime;
+//   - `import "sync"` becomes the scheduler-aware verifsim/simsync, `import "time"` becomes verifsim/simtime,
+//     `import "context"` becomes verifsim/simcontext (the real package, deadlines counted);
 //   - every `go` statement becomes a call of simsync.Go, so that goroutines started by the code under test are tasks of
 //     the scheduled run (their interleavings are decided by the scheduler like those of the client tasks). The operands
-//     of the go statement are still evaluated when the statement executes.
+//     of the go statement are still evaluated when the statement executes;
+//   - every channel operation that may block - send statement, receive expression, select without default, range over
+//     a channel - is bracketed by simsync.ChanBegin / ChanEnd (directly or through the generic helpers ChanSend,
+//     ChanRecv, ChanRecv2): the operation stays the real one on the real channel, but the task gives the token back
+//     before it and asks for it again afterwards (sched/real.go). Channel and value operands are evaluated before the
+//     token is given back. Range statements need type information (is the operand a channel?): the package is
+//     type-checked with export data from `go list -export`; when that fails, range statements are left alone (a task
+//     blocked in one then keeps the token and the run ends in the wall-clock guard, as before).
 //
 // usage: overlaygen <out dir> <src file>...   prints one line "src<TAB>out" per file that changed.
+// Environment: VERIF_OVERLAY_GO (go command, default "go"), VERIF_OVERLAY_REPO (module root of the sources; without it
+// no type information is used).
 package main
 
 import (
 	"bytes"
 	"fmt"
 	"go/ast"
+	"go/build"
+	"go/importer"
 	"go/parser"
 	"go/printer"
 	"go/token"
+	"go/types"
+	"io"
 	"os"
+	"os/exec"
 	"path/filepath"
+	"reflect"
+	"sort"
 	"strconv"
+	"strings"
 )
 
 const (
 	simsyncPath = "verifsim/simsync"
 	simtimePath = "verifsim/simtime"
+	simctxPath  = "verifsim/simcontext"
 	goAlias     = "verifsimgo"
 )
 
@@ -32,8 +51,32 @@ func main() {
 		os.Exit(2)
 	}
 	out := os.Args[1]
-	for i, src := range os.Args[2:] {
-		changed, text, err := rewrite(src)
+	srcs := os.Args[2:]
+	fset := token.NewFileSet()
+	files := map[string]*ast.File{}
+	byDir := map[string][]string{}
+	for _, src := range srcs {
+		f, err := parser.ParseFile(fset, src, nil, parser.ParseComments)
+		if err != nil {
+			fmt.Fprintf(os.Stderr, "overlaygen: %s: %v\n", src, err)
+			os.Exit(1)
+		}
+		files[src] = f
+		byDir[filepath.Dir(src)] = append(byDir[filepath.Dir(src)], src)
+	}
+	chanRange := map[*ast.RangeStmt]bool{}
+	if repo := os.Getenv("VERIF_OVERLAY_REPO"); repo != "" {
+		dirs := make([]string, 0, len(byDir))
+		for d := range byDir {
+			dirs = append(dirs, d)
+		}
+		sort.Strings(dirs)
+		if err := typeInfo(fset, repo, dirs, byDir, files, chanRange); err != nil {
+			fmt.Fprintf(os.Stderr, "overlaygen: no type information (range statements over channels stay as they are): %v\n", err)
+		}
+	}
+	for i, src := range srcs {
+		changed, text, err := rewrite(fset, files[src], chanRange)
 		if err != nil {
 			fmt.Fprintf(os.Stderr, "overlaygen: %s: %v\n", src, err)
 			os.Exit(1)
@@ -50,12 +93,72 @@ func main() {
 	}
 }
 
-func rewrite(path string) (bool, []byte, error) {
-	fset := token.NewFileSet()
-	f, err := parser.ParseFile(fset, path, nil, parser.ParseComments)
-	if err != nil {
-		return false, nil, err
+// typeInfo type-checks each directory's package (files selected by the build constraints with tag verif) and records
+// the range statements whose operand is a channel.
+func typeInfo(fset *token.FileSet, repo string, dirs []string, byDir map[string][]string, files map[string]*ast.File, chanRange map[*ast.RangeStmt]bool) error {
+	gocmd := os.Getenv("VERIF_OVERLAY_GO")
+	if gocmd == "" {
+		gocmd = "go"
 	}
+	args := []string{"list", "-export", "-deps", "-tags", "verif", "-f", "{{.ImportPath}}\t{{.Export}}"}
+	args = append(args, dirs...)
+	cmd := exec.Command(gocmd, args...)
+	cmd.Dir = repo
+	var stderr bytes.Buffer
+	cmd.Stderr = &stderr
+	outb, err := cmd.Output()
+	if err != nil {
+		return fmt.Errorf("go list -export: %v: %s", err, strings.TrimSpace(stderr.String()))
+	}
+	export := map[string]string{}
+	for _, l := range strings.Split(string(outb), "\n") {
+		if p, e, ok := strings.Cut(l, "\t"); ok && e != "" {
+			export[p] = e
+		}
+	}
+	lookup := func(path string) (io.ReadCloser, error) {
+		e, ok := export[path]
+		if !ok {
+			return nil, fmt.Errorf("no export data for %s", path)
+		}
+		return os.Open(e)
+	}
+	imp := importer.ForCompiler(fset, "gc", lookup)
+	bctx := build.Default
+	bctx.BuildTags = append(bctx.BuildTags, "verif")
+	for _, d := range dirs {
+		var list []*ast.File
+		for _, src := range byDir[d] {
+			if ok, err := bctx.MatchFile(filepath.Dir(src), filepath.Base(src)); err == nil && !ok {
+				continue
+			}
+			list = append(list, files[src])
+		}
+		info := &types.Info{Types: map[ast.Expr]types.TypeAndValue{}}
+		conf := types.Config{Importer: imp, Error: func(error) {}}
+		_, cerr := conf.Check(d, fset, list, info)
+		n := 0
+		for _, f := range list {
+			ast.Inspect(f, func(x ast.Node) bool {
+				if r, ok := x.(*ast.RangeStmt); ok {
+					if tv, ok := info.Types[r.X]; ok && tv.Type != nil {
+						if _, isChan := tv.Type.Underlying().(*types.Chan); isChan {
+							chanRange[r] = true
+							n++
+						}
+					}
+				}
+				return true
+			})
+		}
+		if cerr != nil {
+			fmt.Fprintf(os.Stderr, "overlaygen: %s: type errors (first: %v); %d range-over-channel statements recognised all the same\n", d, cerr, n)
+		}
+	}
+	return nil
+}
+
+func rewrite(fset *token.FileSet, f *ast.File, chanRange map[*ast.RangeStmt]bool) (bool, []byte, error) {
 	changed := false
 	syncName := "" // how the file refers to (the stand-in for) package sync
 	for _, imp := range f.Imports {
@@ -76,33 +179,22 @@ func rewrite(path string) (bool, []byte, error) {
 				imp.Name = ast.NewIdent("time")
 			}
 			changed = true
-		}
-	}
-	r := &rewriter{pkg: syncName}
-	if r.pkg == "" {
-		r.pkg = goAlias
-	}
-	ast.Inspect(f, func(n ast.Node) bool {
-		switch x := n.(type) {
-		case *ast.BlockStmt:
-			r.list(x.List)
-		case *ast.CaseClause:
-			r.list(x.Body)
-		case *ast.CommClause:
-			r.list(x.Body)
-		case *ast.LabeledStmt:
-			if g, ok := x.Stmt.(*ast.GoStmt); ok {
-				x.Stmt = r.goStmt(g)
+		case "context":
+			imp.Path.Value = strconv.Quote(simctxPath)
+			if imp.Name == nil {
+				imp.Name = ast.NewIdent("context")
 			}
+			changed = true
 		}
-		return true
-	})
+	}
+	r := &rewriter{pkg: goAlias, skip: map[ast.Node]bool{}, chanRange: chanRange}
+	r.walk(reflect.ValueOf(f))
 	if r.n > 0 {
 		changed = true
-		if syncName == "" {
-			addImport(f, goAlias, simsyncPath)
-		}
+		// the helpers are always reached through an alias of our own: the file's name for sync may be shadowed locally
+		addImport(f, goAlias, simsyncPath)
 	}
+	_ = syncName
 	if !changed {
 		return false, nil, nil
 	}
@@ -114,16 +206,280 @@ func rewrite(path string) (bool, []byte, error) {
 }
 
 type rewriter struct {
-	pkg string
-	n   int
+	pkg       string
+	n         int // rewrites done (also numbers the generated identifiers)
+	skip      map[ast.Node]bool
+	chanRange map[*ast.RangeStmt]bool
 }
 
-func (r *rewriter) list(l []ast.Stmt) {
-	for i, s := range l {
-		if g, ok := s.(*ast.GoStmt); ok {
-			l[i] = r.goStmt(g)
+var (
+	exprType = reflect.TypeOf((*ast.Expr)(nil)).Elem()
+	stmtType = reflect.TypeOf((*ast.Stmt)(nil)).Elem()
+)
+
+// walk visits the syntax tree through reflection, children first, and replaces expressions and statements in place
+// wherever they are held (struct fields and slices of type ast.Expr / ast.Stmt).
+func (r *rewriter) walk(v reflect.Value) {
+	switch v.Kind() {
+	case reflect.Interface:
+		if !v.IsNil() {
+			r.walk(v.Elem())
+		}
+	case reflect.Ptr:
+		if v.IsNil() {
+			return
+		}
+		if n, ok := v.Interface().(ast.Node); ok {
+			r.pre(n)
+		}
+		if _, isObj := v.Interface().(*ast.Object); isObj {
+			return
+		}
+		if _, isScope := v.Interface().(*ast.Scope); isScope {
+			return
+		}
+		r.walk(v.Elem())
+	case reflect.Struct:
+		for i := 0; i < v.NumField(); i++ {
+			fld := v.Field(i)
+			if !fld.CanSet() {
+				continue
+			}
+			r.field(fld)
+		}
+	case reflect.Slice:
+		for i := 0; i < v.Len(); i++ {
+			r.field(v.Index(i))
 		}
 	}
+}
+
+func (r *rewriter) field(fld reflect.Value) {
+	switch {
+	case fld.Type() == exprType:
+		if fld.IsNil() {
+			return
+		}
+		r.walk(fld)
+		if e, ok := fld.Interface().(ast.Expr); ok {
+			if ne := r.expr(e); ne != e {
+				fld.Set(reflect.ValueOf(ne))
+			}
+		}
+	case fld.Type() == stmtType:
+		if fld.IsNil() {
+			return
+		}
+		r.walk(fld)
+		if s, ok := fld.Interface().(ast.Stmt); ok {
+			if ns := r.stmt(s); ns != s {
+				fld.Set(reflect.ValueOf(ns))
+			}
+		}
+	default:
+		switch fld.Kind() {
+		case reflect.Ptr, reflect.Interface, reflect.Slice, reflect.Struct:
+			r.walk(fld)
+		}
+	}
+}
+
+func isRecv(e ast.Expr) (*ast.UnaryExpr, bool) {
+	u, ok := e.(*ast.UnaryExpr)
+	return u, ok && u.Op == token.ARROW
+}
+
+func (r *rewriter) call(name string, args ...ast.Expr) *ast.CallExpr {
+	return &ast.CallExpr{Fun: &ast.SelectorExpr{X: ast.NewIdent(r.pkg), Sel: ast.NewIdent(name)}, Args: args}
+}
+
+// pre runs before the children of a node are visited.
+func (r *rewriter) pre(n ast.Node) {
+	switch x := n.(type) {
+	case *ast.SelectStmt:
+		// the communication of a case stays a communication
+		for _, c := range x.Body.List {
+			cc, ok := c.(*ast.CommClause)
+			if !ok || cc.Comm == nil {
+				continue
+			}
+			r.skip[cc.Comm] = true
+			switch s := cc.Comm.(type) {
+			case *ast.ExprStmt:
+				r.skip[s.X] = true
+			case *ast.AssignStmt:
+				if len(s.Rhs) == 1 {
+					r.skip[s.Rhs[0]] = true
+				}
+			}
+		}
+	case *ast.LabeledStmt:
+		// a labelled select / range statement is rewritten together with its label (the label must stay on it)
+		switch x.Stmt.(type) {
+		case *ast.SelectStmt, *ast.RangeStmt:
+			r.skip[x.Stmt] = true
+		}
+	case *ast.AssignStmt:
+		// v, ok := <-c
+		if !r.skip[x] && len(x.Lhs) == 2 && len(x.Rhs) == 1 {
+			if u, ok := isRecv(x.Rhs[0]); ok {
+				x.Rhs[0] = r.call("ChanRecv2", u.X)
+				r.n++
+			}
+		}
+	case *ast.ValueSpec:
+		// var v, ok = <-c
+		if len(x.Names) == 2 && len(x.Values) == 1 {
+			if u, ok := isRecv(x.Values[0]); ok {
+				x.Values[0] = r.call("ChanRecv2", u.X)
+				r.n++
+			}
+		}
+	}
+}
+
+// expr runs after the children of an expression were visited.
+func (r *rewriter) expr(e ast.Expr) ast.Expr {
+	if r.skip[e] {
+		return e
+	}
+	if u, ok := isRecv(e); ok {
+		r.n++
+		return r.call("ChanRecv", u.X)
+	}
+	return e
+}
+
+// stmt runs after the children of a statement were visited.
+func (r *rewriter) stmt(s ast.Stmt) ast.Stmt {
+	if r.skip[s] {
+		return s
+	}
+	switch x := s.(type) {
+	case *ast.GoStmt:
+		return r.goStmt(x)
+	case *ast.SendStmt:
+		r.n++
+		return &ast.ExprStmt{X: r.call("ChanSend", x.Chan, x.Value)}
+	case *ast.SelectStmt:
+		return r.selectStmt(x, nil)
+	case *ast.RangeStmt:
+		return r.rangeStmt(x, nil)
+	case *ast.LabeledStmt:
+		switch in := x.Stmt.(type) {
+		case *ast.SelectStmt:
+			return r.selectStmt(in, x)
+		case *ast.RangeStmt:
+			return r.rangeStmt(in, x)
+		}
+	}
+	return s
+}
+
+func define(name string, e ast.Expr) ast.Stmt {
+	return &ast.AssignStmt{Lhs: []ast.Expr{ast.NewIdent(name)}, Tok: token.DEFINE, Rhs: []ast.Expr{e}}
+}
+
+// selectStmt brackets a select statement without default. lab is the labelled statement around it, if any: the label
+// stays on the select statement itself (break <label> inside it keeps working).
+func (r *rewriter) selectStmt(x *ast.SelectStmt, lab *ast.LabeledStmt) ast.Stmt {
+	orig := ast.Stmt(x)
+	if lab != nil {
+		orig = lab
+	}
+	for _, c := range x.Body.List {
+		if cc, ok := c.(*ast.CommClause); ok && cc.Comm == nil {
+			return orig // has a default clause: never blocks
+		}
+	}
+	r.n++
+	id := r.n
+	var pre []ast.Stmt
+	hasSend := false
+	h := fmt.Sprintf("verifChanH%d", id)
+	for i, c := range x.Body.List {
+		cc := c.(*ast.CommClause)
+		cname := fmt.Sprintf("verifChanC%d_%d", id, i)
+		switch s := cc.Comm.(type) {
+		case *ast.SendStmt:
+			hasSend = true
+			pre = append(pre, define(cname, s.Chan))
+			s.Chan = ast.NewIdent(cname)
+			if !constantLike(s.Value) {
+				vname := fmt.Sprintf("verifChanV%d_%d", id, i)
+				pre = append(pre, define(vname, s.Value))
+				s.Value = ast.NewIdent(vname)
+			}
+		case *ast.ExprStmt:
+			u, ok := isRecv(s.X)
+			if !ok {
+				return orig
+			}
+			pre = append(pre, define(cname, u.X))
+			u.X = ast.NewIdent(cname)
+		case *ast.AssignStmt:
+			if len(s.Rhs) != 1 {
+				return orig
+			}
+			u, ok := isRecv(s.Rhs[0])
+			if !ok {
+				return orig
+			}
+			pre = append(pre, define(cname, u.X))
+			u.X = ast.NewIdent(cname)
+		default:
+			return orig
+		}
+		end := &ast.ExprStmt{X: r.call("ChanEnd", ast.NewIdent(h))}
+		cc.Body = append([]ast.Stmt{end}, cc.Body...)
+	}
+	pre = append(pre, define(h, r.call("ChanBegin")))
+	if hasSend {
+		pre = append(pre, &ast.DeferStmt{Call: r.call("ChanGuard", &ast.UnaryExpr{Op: token.AND, X: ast.NewIdent(h)})})
+	}
+	var core ast.Stmt = x
+	if lab != nil {
+		lab.Stmt = x
+		core = lab
+	}
+	return &ast.BlockStmt{List: append(pre, core)}
+}
+
+// rangeStmt turns `for k := range ch { body }` into a loop around ChanRecv2.
+func (r *rewriter) rangeStmt(x *ast.RangeStmt, lab *ast.LabeledStmt) ast.Stmt {
+	orig := ast.Stmt(x)
+	if lab != nil {
+		orig = lab
+	}
+	if !r.chanRange[x] || x.Value != nil {
+		return orig
+	}
+	r.n++
+	id := r.n
+	cname := fmt.Sprintf("verifChanR%d", id)
+	ok := fmt.Sprintf("verifChanOk%d", id)
+	var key ast.Expr = ast.NewIdent("_")
+	if x.Key != nil {
+		key = x.Key
+	}
+	var body []ast.Stmt
+	recv := r.call("ChanRecv2", ast.NewIdent(cname))
+	if x.Key == nil || x.Tok == token.DEFINE {
+		body = append(body, &ast.AssignStmt{Lhs: []ast.Expr{key, ast.NewIdent(ok)}, Tok: token.DEFINE, Rhs: []ast.Expr{recv}})
+	} else {
+		body = append(body,
+			&ast.DeclStmt{Decl: &ast.GenDecl{Tok: token.VAR, Specs: []ast.Spec{&ast.ValueSpec{Names: []*ast.Ident{ast.NewIdent(ok)}, Type: ast.NewIdent("bool")}}}},
+			&ast.AssignStmt{Lhs: []ast.Expr{key, ast.NewIdent(ok)}, Tok: token.ASSIGN, Rhs: []ast.Expr{recv}})
+	}
+	body = append(body,
+		&ast.IfStmt{Cond: &ast.UnaryExpr{Op: token.NOT, X: ast.NewIdent(ok)}, Body: &ast.BlockStmt{List: []ast.Stmt{&ast.BranchStmt{Tok: token.BREAK}}}},
+		x.Body)
+	var loop ast.Stmt = &ast.ForStmt{Body: &ast.BlockStmt{List: body}}
+	if lab != nil {
+		lab.Stmt = loop
+		loop = lab
+	}
+	return &ast.BlockStmt{List: []ast.Stmt{define(cname, x.X), loop}}
 }
 
 func constantLike(e ast.Expr) bool {
@@ -138,6 +494,9 @@ func constantLike(e ast.Expr) bool {
 		return x.Op != token.AND && x.Op != token.ARROW && constantLike(x.X)
 	case *ast.BinaryExpr:
 		return constantLike(x.X) && constantLike(x.Y)
+	case *ast.CompositeLit:
+		// struct{}{} and the like
+		return len(x.Elts) == 0
 	}
 	return false
 }
